@@ -15,7 +15,7 @@ pub fn plan() -> Plan {
         meta: Meta {
             property: "C12",
             level: "exploration",
-            rule: "offline/online checker over the complete ordered I/O tap trace (every create, write with offset/length/payload, sync, positional rewrite) of sequential histories with a worker barrier after each step, for dirty-byte limits {0, 1, 100, 4096, 1 MiB, default}: (1) after every acknowledged write/delete + one barrier the active blob's un-synced bytes (file length minus length covered by the last completed sync, ground truth from the trace) are <= the limit; (2) in every blob file a sync covering the header precedes the first record write; (3) whenever an index header with the written bit is written, the blob_size parsed from the written bytes is <= the synced length of the blob file at that point of the trace; (4) after Ok from fsyncdata(), try_close_active_blob() and close() no un-synced bytes of that blob remain. Plus a concurrent scenario (4-24 writer tasks, limits {0,100,4096,65536}): once all clients are done and the worker is idle, rule (1) must hold with no further client action. Histories: puts of 8 B..200 KiB, deletes (also into closed blobs), rotations, force updates, dumps, restarts. Non-trivial = history in which at least one sync was triggered by the dirty-byte limit or an index header was checked; distinct = hash(history, limit).",
+            rule: "offline/online checker over the complete ordered I/O tap trace (every create, write with offset/length/payload, sync, positional rewrite) of sequential histories with a worker barrier after each step, for dirty-byte limits {0, 1, 100, 4096, 1 MiB, default}: (1) after every acknowledged write/delete + one barrier the active blob's un-synced bytes (file length minus length covered by the last completed sync, ground truth from the trace) are <= the limit; (2) in every blob file a sync covering the header precedes the first record write; (3) whenever an index header with the written bit is written, the blob_size parsed from the written bytes is <= the synced length of the blob file at that point of the trace; (4) after Ok from fsyncdata(), try_close_active_blob() and close() no un-synced bytes of that blob remain. Plus a kill-image scenario (the history is not closed; a copy of the directory is opened under a fresh trace whose files start with the synced lengths of the first trace; rule (3) must hold for every index the recovery regenerates and dumps), and a concurrent scenario (4-24 writer tasks, limits {0,100,4096,65536}): once all clients are done and the worker is idle, rule (1) must hold with no further client action. Histories: puts of 8 B..200 KiB, deletes (also into closed blobs), rotations, force updates, dumps, restarts. Non-trivial = history in which at least one sync was triggered by the dirty-byte limit or an index header was checked; distinct = hash(history, limit).",
             assumptions: vec!["a sync event covers the file length observed under the per-file tap lock right before sync_all", "bytes present at (re)open are durable", "verdict holds for the traces produced for this seed"],
         },
         shards: 16,
@@ -243,6 +243,95 @@ async fn concurrent_scenario(dir: std::path::PathBuf, cfg: Cfg, seed: u64, limit
     Ok((writes, syncs))
 }
 
+fn copy_dir(from: &std::path::Path, to: &std::path::Path) {
+    let _ = std::fs::create_dir_all(to);
+    if let Ok(rd) = std::fs::read_dir(from) {
+        for e in rd.flatten() {
+            let p = e.path();
+            if p.is_file() {
+                let _ = std::fs::copy(&p, to.join(e.file_name()));
+            } else if p.is_dir() {
+                copy_dir(&p, &to.join(e.file_name()));
+            }
+        }
+    }
+}
+
+/// Recovery after a process kill: a history runs in directory A under the trace and is NOT closed; a copy of the
+/// directory (the kill image) is opened as directory B with a fresh trace in which every file starts with the
+/// synced length it had in A's trace (bytes beyond it reached the file but were never synced). Whatever the
+/// recovery does - regenerating and dumping indexes at init, at the next dump request, at close - rule (3) must
+/// hold on B's trace: an index is marked complete only after a sync covered the blob bytes it describes.
+async fn kill_image_scenario(dir_a: std::path::PathBuf, dir_b: std::path::PathBuf, cfg: Cfg, ops: Vec<Op>, lazy: bool) -> Result<(u64, u64), (String, String)> {
+    let mut trace_a = Trace::new(true, false);
+    tap::arm(&dir_a, true, false);
+    let mut d: Driver<8> = Driver::new(dir_a.clone(), cfg.clone(), 0xC12);
+    d.model.relaxed = true;
+    let r: Result<(), Mismatch> = async {
+        d.open(false).await?;
+        for op in ops.iter().filter(|o| !matches!(o, Op::Restart { .. })) {
+            d.step(op).await?;
+        }
+        Ok(())
+    }
+    .await;
+    if let Some(s) = d.storage.as_ref() {
+        s.verif_barrier(true).await;
+    }
+    trace_a.feed(&tap::drain(&dir_a));
+    if r.is_err() {
+        if let Some(s) = d.storage.take() {
+            let _ = s.close().await;
+        }
+        let _ = tap::disarm(&dir_a);
+        return Ok((0, 0));
+    }
+    // the kill image
+    copy_dir(&dir_a, &dir_b);
+    if let Some(s) = d.storage.take() {
+        let _ = s.close().await;
+    }
+    let _ = tap::disarm(&dir_a);
+    let mut trace_b = Trace::new(true, false);
+    let mut unsynced = 0u64;
+    for (pa, fl) in trace_a.files.iter() {
+        let rel = match pa.strip_prefix(&dir_a) {
+            Ok(r) => r,
+            Err(_) => continue,
+        };
+        let pb = dir_b.join(rel);
+        if let Ok(content) = std::fs::read(&pb) {
+            let len = content.len() as u64;
+            let synced = fl.synced_len.min(len);
+            unsynced += len - synced;
+            trace_b.files.insert(pb.clone(), crate::tap::FileLog { path: pb, initial: content, len, synced_len: synced, ..Default::default() });
+        }
+    }
+    tap::arm(&dir_b, true, false);
+    let mut l: crate::drive::Loose<8> = crate::drive::Loose::new(dir_b.clone(), cfg.clone());
+    let res: Result<(), (String, String)> = async {
+        l.open(lazy).await.map_err(|e| ("kill-image/init-failed".to_string(), e))?;
+        l.barrier().await;
+        let _ = l.exec(&Op::Dump).await;
+        l.barrier().await;
+        let _ = l.exec(&Op::Close).await;
+        l.barrier().await;
+        l.close().await.map_err(|e| ("kill-image/close-failed".to_string(), e))?;
+        Ok(())
+    }
+    .await;
+    trace_b.feed(&tap::disarm(&dir_b));
+    if let Err((sig, e)) = res {
+        // init / close errors on a kill image are C06's subject
+        let _ = (sig, e);
+        return Ok((0, 0));
+    }
+    if let Some(v) = trace_b.violations.iter().find(|v| v.rule == "c12/index-complete-before-blob-synced") {
+        return Err(("kill-image/index-complete-before-blob-synced".into(), format!("recovery after a process kill ({} bytes were written but not synced at the kill): {}", unsynced, v.detail)));
+    }
+    Ok((trace_b.index_headers_checked, unsynced))
+}
+
 pub fn shard(ctx: &Ctx) -> Shard {
     let mut sh = Shard::default();
     let mut rng = Rng::new(ctx.shard_seed());
@@ -250,6 +339,35 @@ pub fn shard(ctx: &Ctx) -> Shard {
     let limits: [Option<u64>; 6] = [Some(0), Some(1), Some(100), Some(4096), Some(1 << 20), None];
     let mut n = 0u64;
     while ctx.time_left() {
+        if n % 10 == 8 {
+            let mut cfg: Cfg = random_cfg(&mut rng, p.n_keys, p.n_meta, Some(true));
+            cfg.keylen = 8;
+            cfg.max_dirty = *rng.pick(&[None, Some(1u64 << 20), Some(4096)]);
+            let ops = gen_history(&mut rng, &p);
+            let lazy = rng.chance(1, 2);
+            let (dir_a, dir_b) = (new_dir("c12k-"), new_dir("c12kb-"));
+            let r = block_on_catch(cfg.mt, kill_image_scenario(dir_a.clone(), dir_b.clone(), cfg.clone(), ops.clone(), lazy));
+            rm_dir(&dir_a);
+            rm_dir(&dir_b);
+            n += 1;
+            sh.evaluations += 1;
+            let replay = json!({"check": "c12-kill-image", "cfg": cfg.to_json(), "history": history_json(&ops), "short": history_short(&ops), "lazy": lazy});
+            match r {
+                Ok(Ok((headers, unsynced))) => {
+                    sh.add("kill_image_scenarios", 1);
+                    sh.add("kill_image_index_headers_checked", headers);
+                    if unsynced > 0 {
+                        sh.add("kill_images_with_unsynced_bytes", 1);
+                        if headers > 0 {
+                            sh.nontrivial.insert(fnv(format!("ki|{}|{}", history_short(&ops), lazy).as_bytes()));
+                        }
+                    }
+                }
+                Ok(Err((sig, d))) => sh.violation(&ctx.known, "C12", ctx.seed, &format!("C12/{}", sig), &d, replay),
+                Err(p) => sh.violation(&ctx.known, "C12", ctx.seed, "C12/kill-image/panic", &p, replay),
+            }
+            continue;
+        }
         if n % 10 == 9 {
             let mut cfg: Cfg = random_cfg(&mut rng, 4, 0, Some(true));
             cfg.keylen = 8;
